@@ -160,7 +160,7 @@ fn main() {
     let prop = Property {
         id: "C01",
         level: "exploration",
-        rule: "sessions drawn from a boundary lattice (object length around symbol/block/a_large-a_small boundaries x 5 FEC schemes x E x B x parity x cenc x in-band/FDT-only FTI+CENC x FDT mode x interleave x multiplex x queues x transfer counts x sources) plus a systematic small grid and directed maximum-length cases; every emitted packet is pushed in order into a receiver whose writer is the monitoring writer; oracle = exactly the expected number of Complete writers per accepted object with byte-equal data and field-equal metadata, no failed writer, nothing for refused objects; non-trivial = at least one object packet or writer event observed; distinct = hash of the discretised session shape incl. the resulting partition",
+        rule: "sessions drawn from a boundary lattice (object length around symbol/block/a_large-a_small boundaries x 5 FEC schemes x E x B x parity x cenc x in-band/FDT-only FTI+CENC x FDT mode x interleave x multiplex x queues x transfer counts x sources) plus a systematic small grid, directed maximum-length cases and sessions whose objects are added in waves while the sender runs (by packet index or by time, also after the sender ran empty; several FDT instances per session); every emitted packet is pushed in order into a receiver whose writer is the monitoring writer; oracle = exactly the expected number of Complete writers per accepted object with byte-equal data and field-equal metadata, no failed writer, nothing for refused objects; non-trivial = at least one object packet or writer event observed; distinct = hash of the discretised session shape incl. the resulting partition",
         assumptions: vec![
             "clean channel, order preserved; receiver Config: no object timeout".into(),
             "cache directive compared with 1 s tolerance (NTP seconds on the wire); Expires(duration) is relative to any publication instant of the run".into(),
@@ -247,6 +247,97 @@ fn main() {
             let (spec, objs) = gen::gen_session(&mut rng, &GenOpts::default());
             let mut cr = CaseResult::default();
             run_session(&spec, &objs, true, &mut cr);
+            cr
+        }));
+        // ---- objects added while the session runs (several waves, also after the sender ran empty): the receiver
+        // sees several FDT instances, objects of earlier waves complete / leave while later ones start
+        let n_stag = ctx.tier.pick(6000usize, 300_000);
+        gens.push(Gen::new("staggered_additions", n_stag, move |ctx, i| {
+            let mut rng = Rng::keyed(ctx.seed, "C01stag", 0, i as u64);
+            let o = GenOpts { max_objects: 6, ..Default::default() };
+            let (spec, objs) = gen::gen_session(&mut rng, &o);
+            let mut cr = CaseResult::default();
+            let mut script: Vec<(When, Op)> = vec![];
+            let mut pk = 0usize;
+            let mut t_ms = 0u64;
+            let by_time = rng.chance(1, 2);
+            for k in 0..objs.len() {
+                let when = if k == 0 {
+                    When::Start
+                } else if by_time {
+                    t_ms += *rng.pick(&[0u64, 100, 100, 300, 1000, 5000]);
+                    When::TimeMs(t_ms)
+                } else {
+                    pk += rng.range(0, 30) as usize;
+                    When::Packets(pk)
+                };
+                script.push((when.clone(), Op::Add(k)));
+                if spec.full_fdt {
+                    script.push((when, Op::Publish));
+                }
+            }
+            let mut opts = ScriptOpts::every(100, 600);
+            opts.drain = true;
+            opts.max_packets = 60_000;
+            let wit = json!({"sender": spec.json(), "objects": objs.iter().map(|o| o.json()).collect::<Vec<_>>(), "script": format!("{:?}", script)});
+            let r = util::guarded(|| {
+                let run = run_script(&spec, &objs, &script, &opts)?;
+                let executed = run.ops.iter().filter(|o| matches!(o.op, Op::Add(_))).count();
+                let publish_failed = run.ops.iter().any(|o| o.op == Op::Publish && !o.ok);
+                let left = run.samples.last().map(|s| s.nb_objects).unwrap_or(0);
+                let em = run.into_emitted();
+                let mut ro = RxOpts::default();
+                ro.config.object_receive_once = true;
+                let rx = receive_stream(&em, &ro);
+                Ok::<_, String>((em, rx, executed, publish_failed, left))
+            });
+            match r {
+                Err(p) => {
+                    let v = if p.is_step_budget() {
+                        Violation::new("hang", format!("step budget exhausted at {} (logical hang)", p.step_site())).with("site", p.step_site())
+                    } else {
+                        Violation::new("panic", format!("panicked: {} @ {}", p.msg, p.short_loc())).with("site", p.file())
+                    };
+                    cr.violations.push(v.with("gen", "staggered").witness(wit));
+                }
+                Ok(Err(e)) => {
+                    // the session's default OTI cannot carry the FDT at all
+                    let _ = e;
+                    cr.count("sessions_refused_at_publish", 1);
+                }
+                Ok(Ok((em, rx, executed, publish_failed, left))) => {
+                    if publish_failed || executed < em.objs.len() || left > 0 {
+                        // an FDT instance that the session OTI cannot carry (precondition), a wave that was never due,
+                        // or a horizon too short: counted, not judged
+                        cr.count("staggered_not_judged", 1);
+                    } else {
+                        let before = cr.violations.len();
+                        let s = judge(&em, &rx, true, &mut cr.violations);
+                        for v in cr.violations[before..].iter_mut() {
+                            v.sig.insert("staggered".into(), json!(true));
+                        }
+                        let nobjpk = em.stream.iter().filter(|p| p.toi() != 0).count() as u64;
+                        cr.count("packets", em.stream.len() as u64);
+                        cr.count("object_packets", nobjpk);
+                        cr.count("writer_callbacks", rx.log.events.len() as u64);
+                        cr.count("objects", em.objs.len() as u64);
+                        let fdt_instances: std::collections::BTreeSet<u32> = em.stream.iter().filter(|p| p.toi() == 0).filter_map(|p| p.dec.fdt.map(|f| f.1)).collect();
+                        cr.count("fdt_instances_on_wire", fdt_instances.len() as u64);
+                        let mut shape = String::from("stag|");
+                        for (i, o) in em.objs.iter().enumerate() {
+                            shape.push_str(&obj_shape(o, em.oti_of(i), em.transfer_len[i].unwrap_or(0)));
+                            shape.push(';');
+                        }
+                        shape.push_str(&format!("F{}|q{}|t{}|i{}", em.spec.full_fdt, em.spec.queues.len(), by_time, fdt_instances.len()));
+                        if nobjpk > 0 {
+                            cr.shape = Some(util::fnv(&shape));
+                        }
+                        cr.states.push(util::fnv(&format!("stag|{}|{}", em.spec.full_fdt, fdt_instances.len().min(8))));
+                        cr.sample = Some(json!({"sender": em.spec.json(), "objects": s, "packets": em.stream.len(), "fdt_instances": fdt_instances.len(), "script": format!("{:?}", script)}));
+                    }
+                }
+            }
+            limit(&mut cr.violations, 6);
             cr
         }));
         // ---- receive-once disabled: one copy per transfer
